@@ -706,4 +706,46 @@ def okStmt : Stmt → Bool
   | .update _ sets w => sets.all (fun ce => okE ce.2) && (match w with | none => true | some c => okE c)
   | .delete _ w => match w with | none => true | some c => okE c
 
+/-! ### CREATE TABLE: column constraints
+
+`prepare_create_table`: `primary_key = is_primary_key` (a `serial` column becomes an integer key),
+`nullable` is passed to `sa.Column` **only when the column specifies it**; SQLAlchemy then prints
+`NOT NULL` iff `nullable is False`, where an unspecified `nullable` defaults to `not primary_key`. -/
+
+structure ColDef where
+  pk : Bool
+  /-- `TableColumn.nullable`: `NULL` / `NOT NULL` / not specified -/
+  nullable : Option Bool
+  serial : Bool
+  deriving DecidableEq, Repr
+
+/-- what a column declaration says: `NOT NULL` written, member of the primary key -/
+structure ColSpec where
+  notNull : Bool
+  pk : Bool
+  deriving DecidableEq, Repr
+
+/-- the declaration in the original text -/
+def srcSpec (c : ColDef) : ColSpec := ⟨c.nullable == some false, c.pk || c.serial⟩
+
+/-- the declaration in the rendered text -/
+def saSpec (c : ColDef) : ColSpec :=
+  let pk := c.pk || c.serial
+  ⟨match c.nullable with | some n => !n | none => pk, pk⟩
+
+/-- a key column is NOT NULL in effect (SQL) -/
+def ColSpec.rejectsNull (s : ColSpec) : Bool := s.notNull || s.pk
+
+/-- a row may enter a table with the given column declarations and contents: no NULL where one is
+rejected, and its key (if any) is new -/
+def admits (specs : List ColSpec) (rows : Table) (r : Row) : Bool :=
+  ((specs.zip r).all fun sr => !(sr.1.rejectsNull && sr.2.isNone)) &&
+    (!(specs.any (·.pk)) ||
+      !(rows.any fun r' => ((specs.zip (r.zip r')).all fun x => !x.1.pk || x.2.1 == x.2.2)))
+
+/-- `INSERT OR IGNORE` of a list of rows -/
+def insertAll (specs : List ColSpec) : Table → Table → Table
+  | rows, [] => rows
+  | rows, r :: rs => insertAll specs (if admits specs rows r then rows ++ [r] else rows) rs
+
 end MindsVerif.Render
